@@ -196,6 +196,24 @@ PROPS["C10"] = {
     "thorough": {"scale": 3, "shards": 8, "timeout": 1500},
 }
 
+PROPS["C11"] = {
+    "pkg": "c11",
+    "technique": "model-based (stateful) property testing with rapid: operation histories over MapSet, SortedSliceSet (int and string) and RingBuffer compared with map / sorted-slice / push-list models after every step, with clone isolation and a fresh-twin check",
+    "level_text": ("Generated histories against abstract models: after every step every observer (Has over the whole universe, Len, Values, Range incl. an "
+                   "early-terminating callback, Equal between all live sets and against nil, String) of every live set, including all earlier clones and "
+                   "their origins, must equal the model; SortedSliceSet values must be strictly ascending; documented nil-receiver behaviour is exercised. "
+                   "RingBuffer of capacity 0-6: Len, Current, Range, ReverseRange (with early stop) must equal the last min(k,n) pushes since creation or "
+                   "Clear, and a cleared buffer must be indistinguishable from a new one fed the same pushes. Exploration."),
+    "level_note": "Trusted: the models (Go map, sorted slice, slice of pushes). NaN-like values that differ from themselves are not used (a mathematical set has no meaning for them).",
+    "rule": ("Set histories: initial values (with duplicates) + 1-30 operations {add, delete, clear, clone} on up to 4 live sets over a universe of 12 values; "
+             "non-trivial = a Delete of a present element or a Clone followed by a mutation. Ring histories: capacity 0-6, 1-30 operations {push 1..99, clear}; "
+             "non-trivial = more pushes than the capacity (wrap-around) or a Clear after at least one push. distinct = distinct history."),
+    "assumptions": [],
+    "expect_classes": {"ring:wrap-around": 0.2, "ring:clear-after-push": 0.2, "set:clone-followed-by-mutation": 0.2},
+    "quick": {"scale": 1, "shards": 1, "timeout": 300},
+    "thorough": {"scale": 8, "shards": 16, "timeout": 1500},
+}
+
 ALL_IDS = ["C%02d" % i for i in range(1, 21)]
 NOT_APPLICABLE = [
     {"property_id": pid, "reason": "check not built yet in this revision of the harness (work in progress; see DESIGN.md section 9)"}
